@@ -8,8 +8,10 @@
                         into recovered fraction)
   rf.plateau_scale      IdealReservoir.fvf_scale() == 1 - p_f/p_i,  SinglePhaseReservoir.fvf_scale() == 1
   dep.*                 recovery_factor.post (flux stencil, trapezoid over the stored times, frame), wrapper frame, C01 lower bound
-Agreement of the two modes within first-order error (shrinking under refinement), monotone recovery, plateau reached:
-BOUNDED run-time contracts.
+  rf.flux.nondecreasing.ideal   IdealReservoir: flux-based recovery is non-decreasing in time on every non-decreasing grid
+                        (stencil = (L u)_1 + 2 (u_1 - u_0) >= 0 by C01's concavity and spatial monotonicity, re-verified as dep.*)
+Agreement of the two modes within first-order error (shrinking under refinement), monotone recovery of the single-phase
+class, plateau reached: BOUNDED run-time contracts.
 """
 from __future__ import annotations
 
@@ -21,7 +23,7 @@ from .common import *  # noqa: F403
 
 LEVEL = "other"
 EXPLANATION = ("proved: both recoveries start at zero, the in-place recovery never exceeds 1 - rho(L)/rho(m_i) (from C01's lower bound, a monotone density map and monotonicity of finite sums), the pseudopressure scaling factor is c mu z/(2p) at p_i, "
-               "the FVF scales, the flux stencil / time quadrature / frames (dependencies). The agreement of flux-based and in-place recovery 'to within first-order discretisation error', its shrinking under refinement, monotone recovery and the ideal plateau are a-priori error statements no prover here derives: BOUNDED run-time contracts, hence level 'other'")
+               "the FVF scales, the ideal reservoir's flux-based recovery is non-decreasing in time (from C01's concavity invariant), the flux stencil / time quadrature / frames (dependencies). The agreement of flux-based and in-place recovery 'to within first-order discretisation error', its shrinking under refinement, monotone recovery of the single-phase class and the ideal plateau are a-priori error statements no prover here derives: BOUNDED run-time contracts, hence level 'other'")
 TRUSTED = ["monotonicity of finite sums: (forall j: f_j >= c) => sum_j f_j >= n c (induction on n)", "piecewise-linear interpolation (with linear continuation) of non-decreasing data over increasing nodes is non-decreasing",
            "C01 bounds (proved there; re-verified here as dependency)"]
 ASSUMPTIONS = ["'thermodynamically consistent table' enters as: density positive and non-decreasing in scaled pseudopressure"]
@@ -208,6 +210,41 @@ def build(ctx):
 
     obs.append(Obligation("rf.plateau_scale", "IdealReservoir.fvf_scale() == 1 - p_f/p_i and SinglePhaseReservoir.fvf_scale() == 1", plateau, [RES + "IdealReservoir.fvf_scale", RES + "SinglePhaseReservoir.fvf_scale"], "CAS", plateau_replay))
 
+    def flux_monotone_ideal():
+        o, h = run_rf(ctx, "IdealReservoir", False)
+        elk, elk1 = o.value.get(k), o.value.get(tm.sub(k, tm.const(1)))
+        PP = lambda r_, c_: tm.app("PP", [r_, tm.const(c_)])
+        two = tm.rconst(2)
+        hyp = list(o.pc) + list(o.facts) + [qf(k) for qf in o.qfacts] + [tm.le(tm.const(1), k), tm.lt(k, nt)]
+        hyp += [tm.le(tm.app("t", [tm.sub(k, tm.const(1))]), tm.app("t", [k]))]                       # precondition: non-decreasing time grid
+        hyp += [tm.le(resv.pf, resv.p_init), tm.gt(resv.p_init, ZERO)]                                  # precondition: p_f <= p_i, p_i > 0
+        for r_ in (k, tm.sub(k, tm.const(1))):
+            hyp += [tm.ge(tm.sub(tm.sub(tm.mul(two, PP(r_, 1)), PP(r_, 0)), PP(r_, 2)), ZERO)]          # C01 ideal.concave.* at node 1 (interior for nx >= 3)
+            hyp += [tm.le(PP(r_, 0), PP(r_, 1))]                                                        # C01 ideal.mono_x.* at the first pair
+        return with_models(be.prove_smt(tm.ge(elk, elk1), hyp, timeout_ms=20000, want={"k": k}), o)
+
+    def flux_monotone_replay(w):
+        import numpy as np
+        Ir = real(RES + "IdealReservoir")
+        grids = {"alternating 1e-6 / 5e-2": np.concatenate([[0.0], np.cumsum(np.tile([1e-6, 5e-2], 30))]), "quadratic": np.linspace(0, 3, 200) ** 2}
+        for sd in range(3):
+            grids[f"lognormal(sigma=3) steps, seed {sd}"] = np.concatenate([[0.0], np.cumsum(np.random.default_rng(sd).lognormal(-6.0, 3.0, 60))])
+        for nx_ in (3, 4, 12, 40):
+            for ratio in (0.1, 0.95):
+                for name, t in grids.items():
+                    r_ = Ir(nx_, ratio * 8000.0, 8000.0)
+                    r_.simulate(t)
+                    rf = np.asarray(r_.recovery_factor(), dtype=float)
+                    d = np.diff(rf)
+                    if not np.isfinite(rf).all() or d.min() < -1e-12:
+                        i_ = int(np.nanargmin(d))
+                        return {"reproduced": True, "input": {"reservoir": "IdealReservoir", "nx": nx_, "p_f": ratio * 8000.0, "p_i": 8000.0, "time grid": name, "time": [float(x) for x in t]},
+                                "observed": {"rf[i+1] - rf[i]": float(d[i_]), "i": i_}, "required": "rf[i+1] >= rf[i] - 1e-12 (constant drawdown)", "clause": "rf.monotone"}
+        return rt_replay(("rf.monotone",))(w)
+
+    obs.append(Obligation("rf.flux.nondecreasing.ideal", "IdealReservoir, every non-decreasing time grid, p_f <= p_i: recovery_factor()[k] >= recovery_factor()[k-1]: the frac-face flux stencil -u2 + 4 u1 - 3 u0 = (L u)_1 + 2 (u1 - u0) is non-negative on a concave, "
+                          "non-decreasing level (C01 ideal.concave.*, ideal.mono_x.*), every trapezoid increment is, and the scale 1 - p_f/p_i is", flux_monotone_ideal, [resv.RF, RES + "IdealReservoir.fvf_scale"], "SMT", flux_monotone_replay))
+
     # ---------------- dependencies re-verified here
     c10obs = {o.id: o for o in c10.build(ctx)}
     c01obs = {o.id: o for o in c01.build(ctx)}
@@ -216,7 +253,9 @@ def build(ctx):
     c04obs = {o.id: o for o in c04.build(ctx)}
     for src, rp_ in ((c04obs["single.step.uses_contracts"], rt_replay()), (c04obs["ideal.step.uses_contracts"], rt_replay()),
                      (c04obs["single.step.mesh_ratio"], rt_replay(("rf.modes_agree",))), (c04obs["single.step.rows"], rt_replay(("rf.modes_agree",))), (c10obs["recovery_factor.post"], rt_replay()), (c01obs["single.inv.preserve.lower"], rt_replay(("rf.ceiling",))), (c01obs["single.inv.preserve.upper"], rt_replay(("rf.ceiling",))),
-                     (c01obs["single.step.rhs_consistent"], rt_replay(("rf.ceiling", "rf.modes_agree"))), (c09obs["init.frame"], rt_replay())):
+                     (c01obs["single.step.rhs_consistent"], rt_replay(("rf.ceiling", "rf.modes_agree"))), (c09obs["init.frame"], rt_replay()),
+                     (c01obs["ideal.inv.init"], flux_monotone_replay), (c01obs["ideal.step.k_nonneg"], flux_monotone_replay), (c01obs["ideal.inv.preserve.lower"], flux_monotone_replay), (c01obs["ideal.mono_x.preserve"], flux_monotone_replay),
+                     (c01obs["ideal.concave.init"], flux_monotone_replay), (c01obs["ideal.concave.preserve"], flux_monotone_replay)):
         def both(w, a=src.replay, b=rp_):
             r1 = a(w) if a else None
             if r1 and r1.get("reproduced"):
